@@ -37,7 +37,7 @@ func (c *cancelCtx) Err() error {
 	return nil
 }
 
-var optionalCoverKPGC = []string{"kpgc-drained"}
+var optionalCoverKPGC = []string{"kpgc-drained", "kpgc-idle-between-cycles"}
 
 type idxUpdate struct {
 	key []byte
@@ -243,8 +243,10 @@ func Verif_KPGC() {
 	lowUse := int64(vrt.Int("lowuse", 0, 100))
 	// optionally a first cycle whose context is cancelled after a few checks (Close or a
 	// time limit arriving mid-cycle); nothing may be lost by it
+	cancelledFirst := false
 	if nc := vrt.Param("ctxchecks", 0); nc > 0 {
 		if n := vrt.Choose("ctx-cancel-after", nc+1); n < nc {
+			cancelledFirst = true
 			_, err = mp.GC(&cancelCtx{Context: context.Background(), left: n}, lowUse)
 			_ = err // the cycle may complete before the cancellation is noticed
 			conserved("after-cancelled-cycle")
@@ -263,16 +265,44 @@ func Verif_KPGC() {
 	if len(updates) > 1 {
 		vrt.Cover("kpgc-relocated-two")
 	}
-	// what a store flush does between cycles: primary, (index,) then freelist
-	_, err = mp.Flush()
-	vrt.Assert(err == nil, "flush-no-error")
-	_, err = fl.Flush()
-	vrt.Assert(err == nil, "freelist-flush-no-error")
-	check("after-flush")
+	// what a store flush does between cycles: primary, (index,) then freelist - or no
+	// flush at all (an idle store: the entries recorded by cycle 1 stay in the pool)
+	flushedBetween := vrt.Param("noflush", 1) == 0 || vrt.Choose("flush-between-cycles", 2) == 1
+	if flushedBetween {
+		_, err = mp.Flush()
+		vrt.Assert(err == nil, "flush-no-error")
+		_, err = fl.Flush()
+		vrt.Assert(err == nil, "freelist-flush-no-error")
+		check("after-flush")
+	}
 	_, err = mp.GC(context.Background(), lowUse)
 	vrt.Assert(err == nil, "gc2-no-error")
 	check("after-cycle-2")
 	conserved("after-cycle-2")
+	if !flushedBetween {
+		// C13: a record relocated by cycle 1 whose old location is still only in the pool
+		// must not be relocated again by cycle 2 (the second copy would supersede the
+		// first, which nothing records)
+		// (a copy that cycle 1 put into a file which has meanwhile become non-current may
+		// itself be relocated - that records the copy's location, not the original's)
+		pend := pending()
+		for i, rec := range all {
+			if rec.named || rec.deleted {
+				continue
+			}
+			n := 0
+			for _, p := range pend {
+				if p == locOf(rec) {
+					n++
+				}
+			}
+			vrt.Assert(n <= 1 || cancelledFirst, "old-location-of-a-relocated-record-recorded-once", "rec", i, "times", n)
+		}
+		vrt.Cover(optionalCoverKPGC[1])
+		vrt.Assert(mp.Close() == nil, "close-no-error")
+		vrt.Cover("kpgc-end")
+		return
+	}
 	// every location left behind by a relocation in cycle 1 has been freed by cycle 2
 	// (C13: relocated => freed exactly once; C11: the drained file can be released)
 	if !failUpdate {
